@@ -232,6 +232,13 @@ def rule_centre(r):
     r.check(okc, F, "Dispersion.get_weights", pf.unparse(call[0]) if call else "_weights call", call[0].lineno if call else 0)
     if call and z:
         r.check(cfg.dominates(z[0], call[0]), F, "Dispersion.get_weights", "centre reset dominates _weights", call[0].lineno)
+    if z:
+        users = [st for st in cfg.stmts() if st is not z[0] and not isinstance(st, ast.If) and st.lineno > 0
+                 and any(isinstance(n, ast.Name) and n.id == "center" and isinstance(n.ctx, ast.Load) for n in pf.own_exprs(st))
+                 and not (isinstance(st, ast.Assign) and pf.unparse(st.targets[0]) == "sigma")]
+        for st in users:
+            r.check(cfg.dominates(z[0], st), F, "Dispersion.get_weights", "centre reset precedes `%s`" % pf.unparse(st)[:60], st.lineno,
+                    "every value returned for an absolute (angular) distribution is measured from zero, the single-point case included")
 
 
 def rule_unit_sum(r):
